@@ -161,7 +161,17 @@ def judge(sub, text, widths, setting, via="stream", encoding="utf-8", tmpdir=Non
             if via == "fd":
                 source = opened = os.fdopen(os.open(source, os.O_RDONLY), "r", encoding=encoding, newline="")
         try:
-            rows = list(rowio.fixed_rows(source, encoding, fields, SETTINGS[setting]))
+            # another reading of the same characters goes on at the same time, row by row in turn: the two are none
+            # of each other's business
+            company = rowio.fixed_rows(io.StringIO(text, newline=""), encoding, fields, SETTINGS[setting])
+            rows = []
+            for row in rowio.fixed_rows(source, encoding, fields, SETTINGS[setting]):
+                rows.append(row)
+                if company is not None:
+                    try:
+                        next(company)
+                    except (StopIteration, errors.DataFormatError):
+                        company = None
         finally:
             if opened is not None:
                 opened.close()
@@ -272,6 +282,13 @@ def _specials_shard(args):
 ALPHABET = "ab Z9-_.,;äß€中%{}\\'\"\t" + "\x1a\ufeff\x0c\x85\u2028"
 
 
+def _encodable(ch, encoding):
+    try:
+        return ch.encode(encoding).decode(encoding) == ch
+    except UnicodeError:
+        return False
+
+
 @st.composite
 def file_cases(draw):
     widths = draw(st.lists(st.integers(1, 5), min_size=1, max_size=4))
@@ -285,9 +302,10 @@ def file_cases(draw):
         text += record
         if setting != "none" and (i < n_records - 1 or draw(st.booleans())):
             text += draw(st.sampled_from(DELIMS[setting]))
-    encoding = draw(st.sampled_from(["utf-8", "utf-8", "utf-16", "cp1252", "latin-1", "utf-8-sig", "utf-32", "utf-16-le"]))
-    if encoding in ("cp1252", "latin-1"):
-        text = text.replace("中", "c").replace("€", "E").replace("\ufeff", "F").replace("\u2028", "L").replace("\x85", "N")
+    # also code pages of mainframes (EBCDIC: a line feed is byte 0x25, U+0085 is the host's own new line 0x15)
+    encoding = draw(st.sampled_from(["utf-8", "utf-8", "utf-16", "cp1252", "latin-1", "utf-8-sig", "utf-32", "utf-16-le",
+                                     "cp037", "cp500", "cp1140", "cp273"]))
+    text = "".join(ch if _encodable(ch, encoding) else "cEFLN"[ord(ch) % 5] for ch in text)
     edit = draw(st.sampled_from(["none", "all-deletes", "all-inserts", "all-replaces"]))
     insert_char = draw(st.sampled_from("a \r\n"))
     via = draw(st.sampled_from(SOURCES))
